@@ -163,6 +163,7 @@ mod helper {
         let mut rows: std::collections::BTreeMap<String, Vec<String>> = std::collections::BTreeMap::new();
         let mut consts: Vec<String> = Vec::new();
         let mut variants: Vec<String> = Vec::new();
+        let mut other_items: Vec<String> = Vec::new();
         // what the GENERATED accessor functions return per variant: fn -> (variant -> value)
         let mut arms: std::collections::BTreeMap<String, std::collections::BTreeMap<String, String>> =
             std::collections::BTreeMap::new();
@@ -273,7 +274,23 @@ mod helper {
                         variants.push(v.ident.to_string());
                     }
                 }
-                _ => {}
+                syn::Item::Struct(_) => {}
+                // anything else at the top level of the generated code is not something a definition generates:
+                // a macro invocation (which may expand to further impls), a function, a static, a module, ...
+                syn::Item::Macro(m) => {
+                    let p = &m.mac.path;
+                    other_items.push(format!("macro:{}", quote::quote!(#p).to_string().replace(' ', "")));
+                }
+                syn::Item::Fn(f) => other_items.push(format!("fn:{}", f.sig.ident)),
+                syn::Item::Static(x) => other_items.push(format!("static:{}", x.ident)),
+                syn::Item::Mod(x) => other_items.push(format!("mod:{}", x.ident)),
+                syn::Item::Trait(x) => other_items.push(format!("trait:{}", x.ident)),
+                syn::Item::Type(x) => other_items.push(format!("type:{}", x.ident)),
+                syn::Item::Use(_) => other_items.push("use".to_string()),
+                other => {
+                    let t = quote::quote!(#other).to_string();
+                    other_items.push(format!("item:{}", t.split_whitespace().take(3).collect::<Vec<_>>().join("_")));
+                }
             }
         }
         let mut out: Vec<String> = Vec::new();
@@ -296,7 +313,7 @@ mod helper {
             .iter()
             .map(|v| format!("{},{},{},{},{}", v, look("name", v), look("symbol", v), look("si_prefix", v), look("scale", v)))
             .collect();
-        format!("{} # consts {} # variants {} # arms {}", out.join("; "), consts.join(","), variants.join(","), per_variant.join(" | "))
+        format!("{} # consts {} # variants {} # arms {} # items {}", out.join("; "), consts.join(","), variants.join(","), per_variant.join(" | "), other_items.join(","))
     }
 
     /// the sequence of `quantity()` in qty-macros/src/lib.rs
